@@ -685,6 +685,16 @@ def oracle_c08(obs: Obs) -> list[Violation]:
         v.append(Violation("C08", "c08:socket-open-after-close", x))
     for x in obs.post_close_blocked[:1]:
         v.append(Violation("C08", "c08:connect-call-blocked-after-close", x))
+    # the transport reported EOF / a reset: whatever state the connection is in, it closes then -- not when a pending
+    # local disconnect happens to run out of patience
+    tr_conn2 = {e["tr"]: e.get("conn") for e in obs.trace if e["kind"] == "transport_new"}
+    for e in obs.trace:
+        if e["kind"] in ("eof", "reset") and tr_conn2.get(e["tr"]) is not None:
+            cid = tr_conn2[e["tr"]]
+            cs = closed_seq.get(cid)
+            if cs is None or obs.trace[cs]["t"] > e["t"] + 1.0:
+                v.append(Violation("C08", f"c08:lost-but-not-closed:{e['kind']}", f"conn{cid}: {e['kind']} at t={e['t']:.3f}; " + ("never closed" if cs is None else f"closed only at t={obs.trace[cs]['t']:.3f}")))
+                break
     # a connection that has closed opens no socket any more
     tcp_conn = {}
     cur = None
@@ -902,6 +912,21 @@ def pair_fault_sweep(sc: dict, causes: list[dict]):
             for c1 in causes:
                 for c2 in causes:
                     yield {**sc, "events": [{**c1, "it": k1}, {**c2, "it": k2}]}
+
+
+def slow_hello_disconnect_sweep():
+    """disconnect() during a slow hello gives up waiting for the connect (5 s, records its timeout) and goes on to its
+    DisconnectRequest exchange; the link is lost during that exchange / the device answers after all and the
+    disconnect caller gives up, then the link is lost."""
+    for noise in (False, True):
+        for login in (False, True):
+            for c2 in ({"do": "eof"}, {"do": "reset"}, {"do": "chunk", "frames": ["garbage"]}, {"do": "writefail_raise"}):
+                # hello never answered (latency 30 s): lost 2 s into the DisconnectResponse wait
+                yield {"noise": noise, "login": login, "flow": "connect", "K": 8.0, "final_at": 400.0, "latency": 64 * 30,
+                       "events": [{"do": "disconnect", "at": 30}, {**c2, "at": 256 * 7}, {"do": "chunk", "frames": ["ping"], "at": 256 * 7 + 8}]}
+                # hello answered after 6.25 s, disconnect caller cancelled, then lost
+                yield {"noise": noise, "login": login, "flow": "connect", "K": 8.0, "final_at": 400.0, "latency": 400,
+                       "events": [{"do": "disconnect", "at": 30}, {"do": "cancel_disc", "at": 256 * (7 if not login else 14)}, {**c2, "at": 256 * (8 if not login else 15)}, {"do": "chunk", "frames": ["ping"], "at": 256 * 16}]}
 
 
 def stall_sweep(scenarios: list[dict] | None = None):
